@@ -84,8 +84,8 @@ var propSpecs = map[string]*PropSpec{
 	},
 	"C06": {
 		ID: "C06", Exclude: cat(txLabels, jsonLabels), Title: "State machine and claim invariants hold on every path",
-		Funcs:     cat([]string{"validateTransition", "validateClaimInvariant", "newEvent", "buildSetEvents", "applySetUpdates$1", "RunClaimOldestReady$1", "createTaskWithDir$1"}, readyFuncs, replayFuncs),
-		Technique: "contract-based deductive verification: postconditions of the transition table, the claim rule and the set-event builder over the (state, claimant) projection of replay; composed with the set section (the appended events are the built events for the live item) and the claim section",
+		Funcs:     cat([]string{"validateTransition", "validateClaimInvariant", "newEvent", "buildSetEvents", "applySetUpdates$1", "RunClaimOldestReady$1", "createTaskWithDir$1", "applySetUpdates", "writeResultEvent$1", "writeResultEvent"}, readyFuncs, replayFuncs),
+		Technique: "contract-based deductive verification: postconditions of the transition table, the claim rule and the set-event builder over the (state, claimant) projection of replay; composed with the set section (the appended events are the built events for the live item) and the claim section; a rejected set request has committed nothing except possibly its lone result event (applySetUpdates/ensures[reject-touches-result-only], via the ghost record of the last appended events)",
 		Assume: []string{"the (state, claimant) effect of an event list is the fold of the replay step evState/evClaim; replayEvents/loop0/step[state-claim] proves, for every event type and every back edge of the real loop, that one iteration applies exactly this step to every live item (frame included)",
 			"induction over command sequences (every writer preserves the invariant, replay is a left fold) is the standard soundness argument of invariants; writers covered: set, claim <id> (= set), claim, create (state todo, unclaimed); plan is not yet under contract; link/result/tombstone events do not touch state or claimant by the step clause",
 			"contracts of readEvents/appendEvents are assumed (storage layer not yet under contract)"},
@@ -103,7 +103,7 @@ var propSpecs = map[string]*PropSpec{
 	},
 	"C09": {
 		ID: "C09", Exclude: jsonLabels, Title: "prune removes exactly finished work; pruned ids are gone for good",
-		Funcs:     cat([]string{"selectPruneTargets", "buildPrunePlan", "buildPruneItems", "buildTombstoneEvents", "runPrune$1", "runPrune", "RunPrunePlan", "RunPruneApply", "newShortID", "createTaskWithDir$1", "applySetUpdates$1", "writeLinkEvent$1", "writeResultEvent$1", "newEvent"}, lockFuncs, replayFuncs),
+		Funcs:     cat([]string{"selectPruneTargets", "buildPrunePlan", "buildPruneItems", "buildTombstoneEvents", "runPrune$1", "runPrune", "RunPrunePlan", "RunPruneApply", "newShortID", "createTaskWithDir$1", "applySetUpdates$1", "writeLinkEvent$1", "writeResultEvent$1", "newEvent", "RunCompact$1", "RunCompact"}, lockFuncs, replayFuncs),
 		Technique: "contract-based deductive verification: exact prune policy as a postcondition with five loop invariants; dry run writes nothing; applied tombstones are exactly the planned ids; tombstone exclusion as a loop invariant of the real replay loop for every event list; command guards and id freshness as postconditions of the sections",
 		Assume:    []string{"tombExcluded is proved preserved by every case of the replay loop for arbitrary (also hand-merged) event lists", "show's guard is in RunShow (under contract for C12/C16); plan's id generation shares newShortID"},
 	},
@@ -116,9 +116,9 @@ var propSpecs = map[string]*PropSpec{
 	"C12": {
 		ID: "C12", Title: "State is a total function of the log; reads are pure; history only grows", Exclude: []string{"[fail-unchanged]", "[one-commit]", "[committed]"},
 		Funcs: cat([]string{"RunList", "RunShow", "RunWhere", "RunPrune", "RunPrunePlan", "runPrune", "runPrune$1", "sortByCreatedAt$1", "sortByCreatedAt", "buildTaskListItems",
-			"computeStatsForTasks", "collectNonEpicTasks", "filterActiveTasks", "filterReadyTasks", "stateIcon", "selectPruneTargets", "buildPrunePlan", "buildPruneItems", "buildTombstoneEvents", "newEvent", "claimedAtForTask"}, lockFuncs, readyFuncs, replayFuncs),
+			"computeStatsForTasks", "collectNonEpicTasks", "filterActiveTasks", "filterReadyTasks", "stateIcon", "selectPruneTargets", "buildPrunePlan", "buildPruneItems", "buildTombstoneEvents", "newEvent", "claimedAtForTask", "isReachable", "hasCycle"}, lockFuncs, readyFuncs, replayFuncs),
 		Bounded:   []string{"readEvents"},
-		Technique: "contract-based deductive verification: (a) totality: every instruction of the replay loop, of tombstone application and of the read-side graph functions that can panic has a discharged safety obligation for EVERY event list; (b) determinism: every sort comparator that feeds output is proved a total order on the items it sorts (epics: defect repaired), map-derived slices are sorted; (c) read purity: list, show, where and prune without --yes are proved to call no write primitive (ghost log version and commit counter unchanged, no file creation except the lock file); ",
+		Technique: "contract-based deductive verification: (a) totality: every instruction of the replay loop, of tombstone application and of the read-side graph functions that can panic has a discharged safety obligation for EVERY event list; (b) determinism: every sort comparator that feeds output is proved a total order on the items it sorts (epics: defect repaired), map-derived slices are sorted; (c) read purity: list, show, where and prune without --yes are proved to call no write primitive (ghost log version and commit counter unchanged, no file creation except the lock file); (d) the recursive cycle walk terminates on every graph, cyclic ones included: a frame marks its node before it follows an edge (isReachable/loop0 invariant [start]) and only frames whose node was unmarked at entry descend (invariant [variant]), so nested frames carry pairwise distinct nodes of a finite map",
 		Assume:    []string{"readEvents (line scanner, located parse errors naming file and physical line) is outside the verified subset: BOUNDED stand-in on the real function (line sequences over 7 kinds incl. blank lines before the bad line; every byte prefix of 40 logs); topoSortTasks/collectEpicChildren and the tree renderer are assumed pure; `promptly` (time bounds) is not expressible; append-only is carried by the assumed appendEvents contract (O_APPEND)"},
 	},
 	"C17": {
